@@ -152,7 +152,7 @@ func (b *builder) combos(f *fnSpec, fi int) []combo {
 	// six of the states, rotating with the function and the seed (the stride
 	// is coprime to the number of states, so that the functions together use all)
 	for k := 0; k < 6; k++ {
-		out = append(out, combo{(rot + 2*k) % nStates, mounts[(k+rot)%len(mounts)]})
+		out = append(out, combo{(rot + 5*k) % nStates, mounts[(k+rot)%len(mounts)]})
 	}
 	if f.sock { // the socket configuration is where sock_* get past EBADF
 		out = append(out, combo{(rot + 1) % nStates, mtSock})
@@ -334,7 +334,7 @@ func run(c *core.Ctx) int {
 	}
 	for k, v := range map[string]int64{"memory-diff-never-saw-a-write": st.memWritten, "shadow-table-never-saw-an-open": st.opened,
 		"shadow-table-never-saw-a-close": st.closed, "shadow-table-never-saw-a-renumber": st.moved, "compiler-engine-never-used": st.compiler,
-		"allocation-monitor-never-ran": st.allocChecks, "structured-poll_oneoff-never-ran": st.structured} {
+		"allocation-monitor-never-ran": st.allocChecks, "structured-poll_oneoff-never-ran": st.structured, "state-build-never-judged": st.buildOpens} {
 		if v == 0 {
 			missing = append(missing, k)
 		}
@@ -385,6 +385,7 @@ type stats struct {
 	compiler     int64
 	allocChecks  int64
 	structured   int64
+	buildOpens   int64
 	maxAlloc     uint64
 	maxAllocCall string
 	maxSys       uint64
@@ -430,6 +431,8 @@ func (st *stats) handle(cs *caseSpec, r core.CaseResult) bool {
 	st.moved += int64(cr.FdsMoved)
 	st.allocChecks += int64(cr.AllocChecks)
 	st.structured += int64(cr.Structured)
+	st.buildOpens += int64(cr.BuildOpens)
+	c.Count("state_build_descriptors_judged", int64(cr.BuildOpens))
 	c.Count("structured_poll_oneoff_calls", int64(cr.Structured))
 	st.stateCalls[cs.State] += int64(cr.Calls)
 	st.mountCalls[cs.Mount] += int64(cr.Calls)
@@ -519,7 +522,20 @@ func (st *stats) report() {
 	for s := range st.best {
 		sigs = append(sigs, s)
 	}
-	sort.Strings(sigs)
+	// descriptor-table findings first: they are usually the cause of the rest
+	// (the verdict bookkeeping keeps the first 20 signatures)
+	prio := func(s string) int {
+		if strings.Contains(s, ":fdtable:") || strings.HasPrefix(s, "module_close:") {
+			return 0
+		}
+		return 1
+	}
+	sort.Slice(sigs, func(i, j int) bool {
+		if prio(sigs[i]) != prio(sigs[j]) {
+			return prio(sigs[i]) < prio(sigs[j])
+		}
+		return sigs[i] < sigs[j]
+	})
 	var raw []json.RawMessage
 	var idx []string
 	for _, s := range sigs {
